@@ -53,11 +53,13 @@ def generated_for(uname):
         k = m.group(1)
         ck = "pre_expr" if k == "prefix" else "pre_op"
         c = lambda i: "self.%d.op_%s:M" % (i, k)
-        lines.append("ENTRY -> %s @%s" % (c(0), ck))
+        # every member is handed the same expression start and the same checkpoint (= where the input is now)
+        ef = " {pre_expr@here}" if k == "prefix" else " {pre_expr@pre_expr; pre_op@here}"
+        lines.append("ENTRY -> %s @%s%s" % (c(0), ck, ef))
         for i in range(n):
             lines.append("%s Ok -> EXIT Ok @after(self.%d)" % (c(i), i))
             if i + 1 < n:
-                lines.append("%s Err -> %s @%s" % (c(i), c(i + 1), ck))
+                lines.append("%s Err -> %s @%s%s" % (c(i), c(i + 1), ck, ef))
             else:
                 lines.append("%s Err -> EXIT Err @%s" % (c(i), ck))
     return uname + ":\n" + "\n".join("  " + l for l in lines) + "\n"
